@@ -25,7 +25,7 @@ for p in props:
         na.append(dict(property_id=pid, reason="check not built yet in this session (work in progress; see DESIGN.md section 10 for the order)"))
 m = dict(
     version=1,
-    setup_cmd="cd harness && GOFLAGS=-mod=mod GOPROXY=off GOSUMDB=off GOTOOLCHAIN=local go vet ./props/ && GOFLAGS=-mod=mod GOPROXY=off GOSUMDB=off GOTOOLCHAIN=local go test -c -tags verif -vet=off -o /dev/null ./props/",
+    setup_cmd="./check setup",
     hooks=dict(
         guard="verif",
         enable="go test -tags verif -overlay <work>/overlay.json -vet=off (the overlay maps /repo/varlink/zz_verif_export.go to /verif/overlay/zz_verif_export.go, a '//go:build verif' file with two accessors; nothing is changed in /repo)",
